@@ -245,6 +245,9 @@ func VF_C05_scopes() {
 		g.o.Services[i].Scope = scopes[i]
 	}
 	err := ValidateServicesScopes(g.o)
+	if err != nil {
+		vfObserve("ndiagnostics", string(rune('0'+len(grouperror.Collection(err)))))
+	}
 	r := g.closure()
 	want := 0
 	bad := false
